@@ -173,8 +173,16 @@ func writeUsingMaterial(mat *modeling.Material, out *txt.Writer) {
 	}
 }
 
-func writeFaceVerts(tris *iter.ArrayIterator[int], out *txt.Writer, start, end, offset int) {
-	shift := 1 + offset
+// faceOffsets counts the v, vt and vn statements written by the meshes that
+// come before the current one. OBJ numbers each of the three lists on its own,
+// so a mesh without normals (or uvs) must not advance the vn (vt) numbering of
+// the meshes that follow it.
+type faceOffsets struct {
+	v, vt, vn int
+}
+
+func writeFaceVerts(tris *iter.ArrayIterator[int], out *txt.Writer, start, end int, offset faceOffsets) {
+	shift := 1 + offset.v
 	for triIndex := start; triIndex < end; triIndex += 3 {
 		out.StartEntry()
 		out.String("f ")
@@ -188,8 +196,9 @@ func writeFaceVerts(tris *iter.ArrayIterator[int], out *txt.Writer, start, end, 
 	}
 }
 
-func writeFaceVertsAndUvs(tris *iter.ArrayIterator[int], out *txt.Writer, start, end, offset int) {
-	shift := 1 + offset
+func writeFaceVertsAndUvs(tris *iter.ArrayIterator[int], out *txt.Writer, start, end int, offset faceOffsets) {
+	shift := 1 + offset.v
+	uvDelta := offset.vt - offset.v
 	for triIndex := start; triIndex < end; triIndex += 3 {
 		p1 := tris.At(triIndex) + shift
 		p2 := tris.At(triIndex+1) + shift
@@ -200,24 +209,25 @@ func writeFaceVertsAndUvs(tris *iter.ArrayIterator[int], out *txt.Writer, start,
 
 		out.Int(p1)
 		out.String("/")
-		out.Int(p1)
+		out.Int(p1 + uvDelta)
 		out.Space()
 
 		out.Int(p2)
 		out.String("/")
-		out.Int(p2)
+		out.Int(p2 + uvDelta)
 		out.Space()
 
 		out.Int(p3)
 		out.String("/")
-		out.Int(p3)
+		out.Int(p3 + uvDelta)
 		out.NewLine()
 		out.FinishEntry()
 	}
 }
 
-func writeFaceVertsAndNormals(tris *iter.ArrayIterator[int], out *txt.Writer, start, end, offset int) {
-	shift := 1 + offset
+func writeFaceVertsAndNormals(tris *iter.ArrayIterator[int], out *txt.Writer, start, end int, offset faceOffsets) {
+	shift := 1 + offset.v
+	normalDelta := offset.vn - offset.v
 	for triIndex := start; triIndex < end; triIndex += 3 {
 		p1 := tris.At(triIndex) + shift
 		p2 := tris.At(triIndex+1) + shift
@@ -228,24 +238,26 @@ func writeFaceVertsAndNormals(tris *iter.ArrayIterator[int], out *txt.Writer, st
 
 		out.Int(p1)
 		out.String("//")
-		out.Int(p1)
+		out.Int(p1 + normalDelta)
 		out.Space()
 
 		out.Int(p2)
 		out.String("//")
-		out.Int(p2)
+		out.Int(p2 + normalDelta)
 		out.Space()
 
 		out.Int(p3)
 		out.String("//")
-		out.Int(p3)
+		out.Int(p3 + normalDelta)
 		out.NewLine()
 		out.FinishEntry()
 	}
 }
 
-func writeFaceVertAndUvsAndNormals(tris *iter.ArrayIterator[int], out *txt.Writer, start, end, offset int) {
-	shift := 1 + offset
+func writeFaceVertAndUvsAndNormals(tris *iter.ArrayIterator[int], out *txt.Writer, start, end int, offset faceOffsets) {
+	shift := 1 + offset.v
+	uvDelta := offset.vt - offset.v
+	normalDelta := offset.vn - offset.v
 	for triIndex := start; triIndex < end; triIndex += 3 {
 		p1 := tris.At(triIndex) + shift
 		p2 := tris.At(triIndex+1) + shift
@@ -256,23 +268,23 @@ func writeFaceVertAndUvsAndNormals(tris *iter.ArrayIterator[int], out *txt.Write
 
 		out.Int(p1)
 		out.String("/")
-		out.Int(p1)
+		out.Int(p1 + uvDelta)
 		out.String("/")
-		out.Int(p1)
+		out.Int(p1 + normalDelta)
 		out.Space()
 
 		out.Int(p2)
 		out.String("/")
-		out.Int(p2)
+		out.Int(p2 + uvDelta)
 		out.String("/")
-		out.Int(p2)
+		out.Int(p2 + normalDelta)
 		out.Space()
 
 		out.Int(p3)
 		out.String("/")
-		out.Int(p3)
+		out.Int(p3 + uvDelta)
 		out.String("/")
-		out.Int(p3)
+		out.Int(p3 + normalDelta)
 		out.NewLine()
 		out.FinishEntry()
 	}
@@ -358,9 +370,9 @@ func WriteMeshes(meshes []ObjMesh, materialFile string, out io.Writer) error {
 		}
 	}
 
-	var faceWriter func(tris *iter.ArrayIterator[int], out *txt.Writer, start, end, offset int)
+	var faceWriter func(tris *iter.ArrayIterator[int], out *txt.Writer, start, end int, offset faceOffsets)
 
-	indexOffset := 0
+	indexOffset := faceOffsets{}
 	for _, objMesh := range meshes {
 		if len(meshes) > 1 || objMesh.Name != "" {
 			fmt.Fprintf(out, "g %s\n", objMesh.Name)
@@ -401,7 +413,15 @@ func WriteMeshes(meshes []ObjMesh, materialFile string, out io.Writer) error {
 				offset = nextOffset
 			}
 		}
-		indexOffset += m.AttributeLength()
+		if m.HasFloat3Attribute(modeling.PositionAttribute) {
+			indexOffset.v += m.AttributeLength()
+		}
+		if m.HasFloat2Attribute(modeling.TexCoordAttribute) {
+			indexOffset.vt += m.AttributeLength()
+		}
+		if m.HasFloat3Attribute(modeling.NormalAttribute) {
+			indexOffset.vn += m.AttributeLength()
+		}
 	}
 
 	return nil
